@@ -105,6 +105,27 @@ CHECKS = {
              "doubling and untouched states/seeds on the real code.",
         ref="§5 C04", technique="Lean 4 proof (linearity of the reverse step; frame lemmas of the dispatch model) + exact correspondence + deep-snapshot oracle on every module family",
         note=NOTE_COMMON + "Linearity of each library module's hand-written _sensitivity is established per module by C01's adjoint theorems where they exist and otherwise by the oracle (bounded, seeded)."),
+    "C01": dict(
+        text="Lean adjoint / derivative theorems per module model (audited together): complex-number modules, Scaling, ConcatSignal (Props/C01); FilterConv and DensityFilter adjoints (C09); "
+             "KS / P-norm / soft-max HasDerivAt = pairing with the coded derivative (C16); NodalOperation = transpose of ElementOperation (C12); overhang reverse sweep structure + derivative atoms (C14, partial); "
+             "dispatch = back step, coded adjoint of every polynomial kind = transposed Jacobian = exact derivative (C02). Correspondence: responses and sensitivities of the pointwise modules, both filters, "
+             "aggregations and the overhang filter against the models. Property oracle on the real code for EVERY module family incl. LinSolve, Inverse, SystemOfEquations, StaticCondensation, EigenSolve, "
+             "MathGeneral, EinSum, assembly with dense and dyadic seeds: Re<g,v> vs exact Jacobians / Richardson differences, partial seeds, class-preserving directions.",
+        ref="§5 C01", technique="Lean 4 proof per module model (adjoint identities over fields, HasDerivAt over R) + correspondence + complete-Jacobian / Richardson oracle on all module families",
+        note=NOTE_COMMON + "PARTIAL: the implicit modules (LinSolve, Inverse, SoE, StaticCondensation, EigenSolve), assembly and EinSum/MathGeneral have no Lean adjoint theorem in this tree yet (C07/C11 verticals in progress): "
+             "for them the property is decided by the oracle (bounded, seeded). AutoMod (jax) is not installed. OverhangFilter's theorem is _partial."),
+    "C10": dict(
+        text="Lean theorems over any ordered field: concat/split round trip, bound/move expansion (scalar, per-signal, per-variable), write-back to the right signals; both MMA versions reproduce value and gradient at the current design; "
+             "asymptotes strictly enclose [alfa, beta] within bounds and move limit; one Newton pass of subsolv keeps x strictly inside (alfa, beta) and all multipliers/slacks positive (step-length rule + halving), hence every iterate is in bounds "
+             "and within the move limit; exit residual bound (partial). Float model vs recorded mmasub/subsolv calls of the real optimiser (arguments, returned solution, iterates at every callback); per-call inequality and KKT oracles.",
+        ref="§5 C10", technique="Lean 4 proof (field algebra, interior-point invariants) + Float-model correspondence on recorded calls + per-call oracle",
+        note=NOTE_COMMON + "PARTIAL: convergence of MMA on convex problems and 'constraints end up satisfied' are asymptotic claims that are observed, not proved; subsolv_exit_kkt_partial assumes the Newton caps are not hit; m = 0 is outside the property."),
+    "C17": dict(
+        text="Lean theorems over any ordered field: the clipped OC update stays in [xmin, xmax] and moves at most `move`; by induction over ALL iterations of minimize_oc every design at every response and the final states are in bounds and chained by the move limit; "
+             "volume is non-increasing in the multiplier; the bisection keeps vol(l1) > maxvol >= vol(l2) and exits with l2 - l1 <= tolerance; write-back slices concatenate to the design. Float model vs the real loop at every network response; "
+             "oracle: bounds, move, volume tolerance bound, convergence to x* ~ sqrt(c).",
+        ref="§5 C17", technique="Lean 4 proof (clip lemmas, induction over iterations and bisection passes) + Float-model correspondence + oracle",
+        note=NOTE_COMMON + "PARTIAL: 'volume equals maxvol to bisection tolerance' needs a modulus of continuity (oc_volume_tolerance_partial takes it as hypothesis); fixed-point convergence is observed only."),
 }
 
 NOT_APPLICABLE = {
